@@ -66,6 +66,43 @@ def closure_ret(p, clo, subst=True):
     return flow.simplify_term(v)
 
 
+def client_data_impl_rule(chk, p, R):
+    """the shipped implementations of ClientData::client_data_hash return either nothing (the client hashes the JSON it
+    builds) or the caller's hash as it was supplied — never a transformation of it"""
+    tr = [t for t in p.traits.values() if t["path"].endswith("::ClientData") and t["path"].startswith("passkey_client")]
+    if not chk.require(R, "R1|ClientData", len(tr) == 1, "passkey_client", "trait ClientData not found"):
+        return
+    bad = []
+    n = 0
+    N = normal.Normalizer(p, summary.Summaries(p))
+    for im in p.impls_of(trait=tr[0]["path"]):
+        for item in im["items"]:
+            if item["name"] != "client_data_hash":
+                continue
+            b = p.bodies.get(item["def"]) or p.by_id.get(item.get("def_id"))
+            if b is None:
+                continue
+            n += 1
+            chk.touched(b)
+            for rt in b.return_blocks():
+                v = N.inline(flow.Terms(p, b).place(0, (), rt, "t"))
+                for cs, x in normal.cases_deep(v):
+                    if x == normal.NONE or x == ("param", 1):
+                        continue  # nothing supplied / `impl ClientData for Option<Vec<u8>>`: the option itself
+                    ok = isinstance(x, tuple) and x[:3] == ("agg", "core::option::Option", "Some")
+                    if ok:
+                        inner = dict(x[3])["0"]
+                        # the stored hash itself: a member of self, through clones / conversions that keep the bytes
+                        y = inner
+                        while isinstance(y, tuple) and len(y) == 4 and y[0] == "call" and y[2] and any(names.is_(y[1], s) for s in ("Clone::clone", "Into::into", "From::from", "slice::to_vec", "Vec::clone", "ToOwned::to_owned", "Deref::deref", "AsRef::as_ref")):
+                            y = y[2][0]
+                        ok = isinstance(y, tuple) and y and y[0] == "field" and has(y, lambda z: z == ("param", 1)) and not has(inner, lambda z: is_call(z, "sha256") or is_call(z, "Digest::digest") or is_call(z, "crypto::sha256"))
+                    if not ok:
+                        bad.append("%s returns %s" % (api_name(b), flow.term_str(x)[:120]))
+    chk.ob(R, "R1|ClientData::client_data_hash|supplied-hash-unchanged", n >= 2 and not bad, tr[0]["path"],
+           bad[0] if bad else "%d implementations return None or the hash they were given, unchanged" % n)
+
+
 def origin_rendering_rule(chk, p, R):
     """`origin.to_string()` is what goes into the client data: for a web origin the Display impl must write the URL's own
     ASCII serialisation (scheme, punycode host, non-default port) — Url::as_str (trailing '/' trimmed), the Url's
@@ -118,6 +155,7 @@ def client_data_rules(chk, p, co, nm, ty_variant, target):
     ch = f["challenge"]
     okc = is_call(ch, "encoding::base64url") and ch[2][0][0] == "field" and ch[2][0][2] == "challenge" and has(ch[2][0], lambda x: x == ("upvar", 2))
     chk.ob(R, "R1|Client::%s|challenge" % nm, okc, where(co, line=co.blocks[bb]["stmts"][i]["line"]), "challenge = %s" % flow.term_str(ch))
+    client_data_impl_rule(chk, p, R)
     chk.ob(R, "R1|Client::%s|origin" % nm, f["origin"] == ("upvar", 1), where(co, line=co.blocks[bb]["stmts"][i]["line"]), "origin = %s (the caller's origin rendered with Display)" % flow.term_str(f["origin"]))
     origin_rendering_rule(chk, p, R)
     # hash + returned json
